@@ -4,7 +4,6 @@ import re
 PROPS = {
     "C14": {
         "modules": ["Ark.Props.C14"],
-        "claimed": False,
         "parallel": True,
         "rule": "one op line per (operation, thread-pool size T, input); distinct = distinct op line; non-trivial = input length > 1",
         "exhaustive": ["all vectors of length <= 2 over F_13 for batch inversion, T in {1,2,3,5,7,8,13,16,64}"],
@@ -56,7 +55,6 @@ PROPS = {
     },
     "C19": {
         "modules": ["Ark.Props.C19"],
-        "claimed": False,
         "rule": "one op line per comparison of a PAIR (or triple) of values / representations; distinct = distinct op line; non-trivial = operands not all in {0,1}",
         "exhaustive": ["all pairs of F_3, F_5, F_7, F_13 in both flavours; all pairs of points x rescalings Z in {1,2,3} x identity forms of toy curves SW13A, SW13D, TE13A"],
         "partial": [],
@@ -71,8 +69,7 @@ PROPS = {
         "assumptions": ["only serial code paths (parallel is C14)", "filter polynomials are outside the property statement (verdict note)"],
     },
     "C02": {
-        "modules": ["Ark.Props.C02"],
-        "claimed": False,
+        "modules": ["Ark.Props.C02a", "Ark.Props.C02b"],
         "rule": "one op line per extension-field operation on a tower configuration (shipped bls12_381 Fq2/Fq6/Fq12, mnt6_753 Fq3, toy Fp2/Fp3/Fp4/Fp6/Fp12 towers); distinct = distinct op line; non-trivial = some coordinate outside {0,1}",
         "exhaustive": ["all ordered pairs of toy Fp2 over F_3, F_5, F_7 (beta=-1 and beta=3); all elements of toy Fp3 over F_7, F_13 and Fp4 over F_5; complete cyclotomic subgroups of the toy towers"],
         "partial": [],
